@@ -63,6 +63,7 @@ type Exec struct {
 	retStates   []retOut
 	modMemo     map[*FuncInfo]*ModSet
 	prepared    map[*FuncInfo]bool
+	marks       map[string]*State
 	sentinels   []string
 }
 
@@ -869,6 +870,9 @@ func (ex *Exec) runLoop(st *State, ls loopShape) Outcomes {
 		}
 	}
 	for _, g := range ghosts {
+		if g.AtEnd == nil {
+			continue // constant through the loop (snapshot of a value at loop entry)
+		}
 		old := st.ghost[g.Name]
 		st.ghost[g.Name] = freshLike("ghost."+g.Name, old)
 	}
